@@ -341,6 +341,20 @@ def r6_stream(chk, f):
         chk.decide(len(withs) == 1 and not regs, "C09.R6", key, f.where(opens[0]), f"the opened file is owned by `with ExitStack() as {stack}`; nothing else is registered",
                    f"`{stack}` is not an enclosing ExitStack, or it also registers {[short(r, 40) for r in regs]}: a caller-supplied stream may be closed / the opened file leaked")
         return
+    if not closes and len(opens) == 1:
+        # ExitStack.callback idiom: `stream = open(..)` and `<stack>.callback(stream.close)` side by side, in the branch that opens
+        cbs = [c for c in walk_no_nested(f.node) if isinstance(c, ast.Call) and isinstance(c.func, ast.Attribute) and c.func.attr == "callback" and isinstance(c.func.value, ast.Name)
+               and len(c.args) == 1 and norm(c.args[0]) == "stream.close"]
+        if cbs:
+            stk = cbs[0].func.value.id
+            withs = [w for w in walk_no_nested(f.node) if isinstance(w, ast.With) and any(
+                isinstance(it.context_expr, ast.Call) and (call_name(it.context_expr) or "").split(".")[-1] == "ExitStack"
+                and it.optional_vars is not None and norm(it.optional_vars) == stk for it in w.items) and any(x is opens[0] for x in ast.walk(w))]
+            same_block = any(isinstance(g, ast.If) and any(x is opens[0] for x in g.body) and any(any(y is cbs[0] for y in ast.walk(x)) for x in g.body) for g in walk_no_nested(f.node))
+            chk.decide(len(cbs) == 1 and len(withs) == 1 and same_block, "C09.R6", key, f.where(cbs[0]),
+                       f"`{stk}.callback(stream.close)` is registered where the file is opened, and only there; `with ExitStack() as {stk}` unwinds it on every exit",
+                       "the close callback is not registered exactly in the branch that opens the file: a caller-supplied stream is closed / the opened file leaked")
+            return
     if not closes:
         chk.fail("C09.R6", key, f.where(), "a file opened by dump is never closed")
         return
